@@ -318,6 +318,136 @@ Definition verdict_extract_C11 (a : list val) (out : val) : N :=
   | _ => NOT_JUDGED
   end.
 
+(* ---------- extract_seq (property C13 for field extraction) ----------
+   args [target; fields; tids; memory seed; ks; rot].  Every request of the builder gets one reply
+   of the conforming device (as in "extract"); then, on the SAME response object / frame buffer:
+   ExtractFields strict, lenient, strict, lenient; the same four with a second BuilderRequest that
+   shares the packet but has its Fields reversed, resp. rotated by [rot]; and Field.ExtractFrom for
+   every member on ONE shared *Registers in the original, the reversed and again the original
+   order.  Outcome per request: [server; unit; start; quantity; frame before; frame after;
+   [the eight ExtractFields outcomes]; [the three ExtractFrom lists]] (or [..; [4]] when the reply
+   does not parse).  The model threads the response's Data slice through all calls. *)
+Definition with_fields (r : breq) (fs : list field) : breq :=
+  {| br_req := br_req r; br_tcp := br_tcp r; br_server := br_server r; br_unit := br_unit r;
+     br_start := br_start r; br_fields := fs |}.
+Definition rotate {A} (n : nat) (l : list A) : list A :=
+  match l with [] => [] | _ => skipn (n mod length l) l ++ firstn (n mod length l) l end.
+Definition with_data (p : resp) (d : slice) : resp :=
+  match p with PBytes fc u bl _ => PBytes fc u bl (vis d) | _ => p end.
+Fixpoint run_steps (p : resp) (steps : list (breq * bool)) (d : slice) : list val * slice :=
+  match steps with
+  | [] => ([], d)
+  | (r, cont) :: rest =>
+      let '(x, d1) := extract_fields_data r (with_data p d) (spare d) cont in
+      let '(xs, d2) := run_steps p rest d1 in
+      (proj_xres x :: xs, d2)
+  end.
+Definition proj_member (e : field * res xerr aval) : val :=
+  match snd e with
+  | Ok v => VL [vN (f_name (fst e)); VI 0%Z; proj_aval v]
+  | Err _ => VL [vN (f_name (fst e)); VI 1%Z]
+  | Panic => VL [vN (f_name (fst e)); VI 2%Z]
+  end.
+Definition shared_registers_runs (r : breq) (p : resp) (d : slice) : val * slice :=
+  match p with
+  | PBytes fc _ _ _ =>
+      if is_coil_fc fc then (VL [VI 7%Z], d) else
+      match new_registers d (br_start r) with
+      | Ok regs =>
+          let '(l1, regs1) := extract_from_seq (br_fields r) regs in
+          let '(l2, regs2) := extract_from_seq (rev (br_fields r)) regs1 in
+          let '(l3, regs3) := extract_from_seq (br_fields r) regs2 in
+          (VL [VL (map proj_member l1); VL (map proj_member l2); VL (map proj_member l3)], r_data regs3)
+      | Err _ => (VL [VI 1%Z], d)
+      | Panic => (VL [VI 2%Z], d)
+      end
+  | _ => (VL [VI 7%Z], d)
+  end.
+Definition resp_data (p : resp) : list N := match p with PBytes _ _ _ data => data | _ => [] end.
+
+Definition extract_seq_one (ms tid : N) (k : val) (rot : nat) (r : breq) : val :=
+  let bytes := breq_bytes tid r in
+  let seed := dev_seed ms (br_server r) (br_unit r) in
+  let reply := device_reply (br_tcp r) (mem_word seed) (mem_coil seed) bytes (trunc_of k) in
+  let head := [VB (br_server r); vN (br_unit r); vN (br_start r); vN (packet_qty (br_req r))] in
+  let sp := if br_tcp r then [] else skipn (length reply - 2) reply in
+  let parsed := if br_tcp r then map_ok snd (parse_tcp_response (exact reply))
+                else parse_rtu_response_crc (exact reply) in
+  match parsed with
+  | Ok p =>
+      let d0 := {| vis := resp_data p; spare := sp |} in
+      let prefix := firstn (length reply - length (resp_data p) - length sp) reply in
+      let rrev := with_fields r (rev (br_fields r)) in
+      let rrot := with_fields r (rotate rot (br_fields r)) in
+      let '(outs, d1) := run_steps p [(r, false); (r, true); (r, false); (r, true);
+                                      (rrev, false); (rrev, true); (rrot, false); (rrot, true)] d0 in
+      let '(shared, d2) := shared_registers_runs r (with_data p d1) d1 in
+      VL (head ++ [VB reply; VB (prefix ++ vis d2 ++ spare d2); VL outs; shared])
+  | Err _ => VL (head ++ [VL [VI 4%Z]])
+  | Panic => VL (head ++ [VL [VI 2%Z]])
+  end.
+Fixpoint extract_seq_all (ms : N) (rot : nat) (tids ks : list val) (rs : list breq) : list val :=
+  match rs with
+  | [] => []
+  | r :: rest =>
+      extract_seq_one ms (val_N (hd (VI 0%Z) tids)) (hd (VI (-1)%Z) ks) rot r
+      :: extract_seq_all ms rot (tl tids) (tl ks) rest
+  end.
+Definition run_extract_seq (a : list val) : val :=
+  match a with
+  | [VI t; VL fvs; VL tids; VI ms; VL ks; VI rot] =>
+      match fields_of_vals 0 fvs with
+      | Some fields =>
+          match builder_read (zN t) fields with
+          | Ok reqs => v_ok [VL (extract_seq_all (zN ms) (Z.to_nat rot) tids ks (sort_by breq_leb reqs))]
+          | Err _ => v_err [VI 1%Z]
+          | Panic => v_panic
+          end
+      | None => v_bad
+      end
+  | _ => v_bad
+  end.
+
+(* C13 on an implementation outcome, judged on the outcome alone: the frame buffer is unchanged;
+   the repeated ExtractFields calls return what the first returned; the calls with permuted Fields
+   return the same outcome class and, per field id, the same entry; the ExtractFrom runs on one
+   shared Registers agree with each other per field id (the third with the first literally) and
+   with the lenient ExtractFields result. *)
+Definition result_parts (v : val) : option (Z * list val) :=
+  match v with
+  | VL [VI c; VL es] => Some (c, es)
+  | VL [VI c] => Some (c, [])
+  | _ => None
+  end.
+Definition same_set (a b : list val) : bool :=
+  (length a =? length b)%nat && forallb (fun e => existsb (val_eqb e) b) a.
+Definition same_result (a b : val) : bool :=
+  match result_parts a, result_parts b with
+  | Some (c, es), Some (c', es') => Z.eqb c c' && same_set es es'
+  | _, _ => false
+  end.
+Definition c13_request (v : val) : bool :=
+  match v with
+  | VL [_; _; _; _; VB before; VB after; VL [e1; l1; e2; l2; e3; l3; e4; l4]; shared] =>
+      list_eqb before after &&
+      val_eqb e2 e1 && val_eqb l2 l1 &&
+      same_result e3 e1 && same_result e4 e1 && same_result l3 l1 && same_result l4 l1 &&
+      match shared, result_parts l1 with
+      | VL [VL s1; VL s2; VL s3], Some (_, es) => val_eqb (VL s3) (VL s1) && same_set s2 s1 && same_set es s1
+      | VL [VI 1%Z], Some (1%Z, _) => true      (* AsRegisters refuses the payload: so did ExtractFields *)
+      | VL [VI 7%Z], _ => true                  (* not a register response *)
+      | _, _ => false
+      end
+  | VL [_; _; _; _; VL [VI 4%Z]] => true        (* no response object *)
+  | _ => false
+  end.
+Definition verdict_extract_seq_C13 (a : list val) (out : val) : N :=
+  match out with
+  | VL (VI 1%Z :: _) => NOT_JUDGED
+  | VL [VI 0%Z; VL rs] => if forallb c13_request rs then HOLDS else VIOLATES
+  | _ => VIOLATES
+  end.
+
 (* ---------- the table of this layer ---------- *)
 Open Scope string_scope.
 Open Scope N_scope.
@@ -327,5 +457,7 @@ Definition table_builder : list entry :=
     {| e_name := "extract"; e_run := run_extract;
        e_verdict := fun p a o => if p =? 5 then verdict_extract_C05 a o
                                  else if p =? 11 then verdict_extract_C11 a o else NOT_JUDGED |};
-    {| e_name := "extract_resp"; e_run := run_extract_resp; e_verdict := no_verdict |}
+    {| e_name := "extract_resp"; e_run := run_extract_resp; e_verdict := no_verdict |};
+    {| e_name := "extract_seq"; e_run := run_extract_seq;
+       e_verdict := fun p a o => if p =? 13 then verdict_extract_seq_C13 a o else NOT_JUDGED |}
   ].
